@@ -277,3 +277,27 @@ func normalizeSliceIndices(start, end value, length int) (int, int, error) {
 	}
 	return startIdx, endIdx, nil
 }
+
+// deepCopy copies the given value, copying the elements of arrays and
+// maps recursively so that the copy shares no array or map with val. It
+// is used by the array repetition operator.
+func deepCopy(val value) value {
+	switch v := val.(type) {
+	case arrayVal:
+		elements := make([]value, len(v.Elements))
+		for i, el := range v.Elements {
+			elements[i] = deepCopy(el)
+		}
+		return arrayVal{Elements: elements}
+	case mapVal:
+		m := mapVal{
+			order: append([]stringVal{}, v.order...),
+			m:     make(map[stringVal]value, len(v.m)),
+		}
+		for key, el := range v.m {
+			m.m[key] = deepCopy(el)
+		}
+		return m
+	}
+	return val
+}
